@@ -331,6 +331,40 @@ def FB.getFunc (fb : FB) (ident : Nat) (wrapped : Option Nat) (body : List Spec)
          fb.kwonlydefaults, fb.annotations, fb.retAnn, fb.isAsync, wrapped, body⟩
   | _, _ => .error .syntaxError
 
+/-- `get_arg_names(only_required)` -/
+def FB.argNames (fb : FB) (onlyRequired : Bool) : List Name :=
+  if onlyRequired then (fb.args ++ fb.kwonlyargs).filter (fun a => (get? a fb.defaultsDict).isNone)
+  else fb.args ++ fb.kwonlyargs
+
+/-- the builder's public mutators -/
+inductive BOp where
+  | remove (x : Name)
+  | add (z : Name) (d : Option Val) (kwonly : Bool)
+deriving DecidableEq, Repr
+
+def BOp.name : BOp → Name
+  | .remove x => x
+  | .add z _ _ => z
+
+def FB.step (fb : FB) : BOp → Except Err FB
+  | .remove x => fb.removeArg x
+  | .add z d k => fb.addArg z d k
+
+/-- a history of `remove_arg` / `add_arg` calls (stops at the first exception) -/
+def FB.run : FB → List BOp → Except Err FB
+  | fb, [] => .ok fb
+  | fb, op :: ops =>
+    match fb.step op with
+    | .ok fb' => fb'.run ops
+    | .error e => .error e
+
+/-- `FunctionBuilder.from_func(f)`, a history of mutators, body = `return _call(<invocation>)`,
+    `get_func()` -/
+def buildHistory (f : Func) (ops : List BOp) (ident : Nat := f.ident + 1) : Except Err Func :=
+  match (FB.fromFunc f).run ops with
+  | .error e => .error e
+  | .ok fb => fb.getFunc ident none fb.invocationSpecs
+
 def injectAll (injectToVarkw : Bool) : FB → List Name → Except Err FB
   | fb, [] => .ok fb
   | fb, x :: xs =>
